@@ -22,19 +22,18 @@ SCR = os.path.join(lib.BUILD, "scratch", "c17run")
 
 REQUIRED = [
     "floor_eq_floor", "ceil_eq_ceil", "trunc_eq_trunc", "floor_no_overflow",
-    "divs_mods_truncating", "divp_modp_euclidean", "divs_mods_int32", "divp_modp_int32_partial",
-    "divp_negation_guard_defect",
+    "divs_mods_truncating", "divp_modp_euclidean", "divs_mods_int32", "divp_modp_int32",
+    "divp_former_defect_fixed",
     "abs_is_abs", "sign_is_sign", "cmp_is_three_way", "cmpt_is_tolerant_cmp", "iszero_iff", "equal_iff",
     "clamp_is_clamp", "lerp_is_affine", "ulerp_is_lerp", "equalWithAbsError_iff", "equalWithRelError_iff",
     "lerpfactor_guard", "lerpfactor_inverts_lerp", "lerp_of_lerpfactor", "lerpfactor_zero_instead_of_overflow",
     "finitef_iff_exponent", "finited_iff_exponent", "ord_is_order_embedding",
     "succf_adjacent", "predf_adjacent", "succd_adjacent", "predd_adjacent", "succ_pred_boundaries",
     "solveLinear_correct", "solveQuadratic_two_roots", "solveQuadratic_one_root", "solveQuadratic_no_root",
-    "solvers_delegate", "solveNormalizedCubic_triple_root", "solveNormalizedCubic_real_partial",
-    "cardanoA_zero_iff", "cubic_real_branch_defect", "cubic_real_full_statement_false",
-    "solveNormalizedCubic_complex_roots", "solveNormalizedCubicStable_real",
+    "solvers_delegate", "solveNormalizedCubic_triple_root", "solveNormalizedCubic_real",
+    "cardanoA_never_zero", "cubic_former_defect_fixed", "solveNormalizedCubic_complex_roots",
     "color4_agrees_with_vec3", "hsv2rgb_rgb2hsv", "rgb2hsv_hsv2rgb", "integer_wrappers_scale_by_max",
-    "rgb2packed_packed2rgb_exact", "color4_int_alpha_defect",
+    "rgb2packed_packed2rgb_exact", "color4_int_alpha_fixed",
 ]
 
 INT_MIN, INT_MAX = -2 ** 31, 2 ** 31 - 1
@@ -140,24 +139,6 @@ def wrapper_casts():
             casts = set(re.findall(r"/\s*(float|double)\s*\(\s*std::numeric_limits<T>::max\s*\(\)\s*\)", m.group(1))) if m else set()
             res[fn + tag] = ("f" if casts == {"float"} else "d" if casts == {"double"} else "?")
     return res
-
-
-def cubic_variant():
-    """which cube-root argument the D > 0 branch of solveNormalizedCubic uses (source text):
-    'orig'   : real_root (-q / 2 + std::sqrt (D), 3)                      -> Model.Roots.solveNormalizedCubic
-    'stable' : real_root ((q > 0) ? -q / 2 - std::sqrt (D) : -q / 2 + std::sqrt (D), 3)
-                                                                          -> Model.Roots.solveNormalizedCubicStable
-    '?'      : anything else (the hand model has to be re-written)"""
-    src = open(os.path.join(lib.REPO, "src", "Imath", "ImathRoots.h")).read()
-    m = re.search(r"T\s+u\s*=\s*real_root\s*\((.*?),\s*3\s*\)\s*;", src, re.S)
-    if not m:
-        return "?"
-    e = re.sub(r"\s+", "", m.group(1))
-    if e == "-q/2+std::sqrt(D)":
-        return "orig"
-    if e in ("(q>0)?-q/2-std::sqrt(D):-q/2+std::sqrt(D)", "q>0?-q/2-std::sqrt(D):-q/2+std::sqrt(D)"):
-        return "stable"
-    return "?"
 
 
 # ---------------------------------------------------------------------------
@@ -407,8 +388,9 @@ def check_ints(cx):
                     e["differs"] += 1
                 if len(e["examples"]) < 6:
                     e["examples"].append({"x": x, "y": y, "implementation": ia[k], "wrap_model": ib[k], "specification": spec[k]})
-        # the property's own guard: "no intermediate NEGATION overflows" (x, y != INT_MIN covers every negation)
-        if x != INT_MIN and y != INT_MIN and flags[4] == "1":
+        # the property's own guard: no intermediate NEGATION overflows (and the quotient is an int at all)
+        if flags[4] == "1" and INT_MIN <= eq <= INT_MAX:
+            cx.hit("int:divp/modp:negation-guard-holds")
             for k in (2, 3):
                 if ia[k] != str(spec[k]):
                     neg_guard_bad.append((names[k], x, y, ia[k], spec[k]))
@@ -430,11 +412,11 @@ def check_ints(cx):
         canon_w = [t for t in neg_guard_bad if t[1] == -5 and t[2] == INT_MAX and t[0] == "divp"]
         n, x, y, i, s = canon_w[0] if canon_w else neg_guard_bad[0]
         chk.fail("spec:int:negation-guard", "divp:x=%d,y=%d" % (x, y),
-                 "divp/modp are wrong for inputs where no negation overflows: the intermediate `y - 1 - x` (`-y - 1 - x`) overflows; "
-                 "divp(%d,%d) returns %s, Euclidean quotient is %d" % (x, y, i, s),
+                 "divp/modp are wrong for inputs where no negation overflows (some other intermediate does); "
+                 "%s(%d,%d) returns %s, Euclidean value is %d" % (n, x, y, i, s),
                  {"function": n, "x": x, "y": y, "implementation": i, "specification": s, "failing_grid_pairs": len(neg_guard_bad),
                   "others": [{"fn": t[0], "x": t[1], "y": t[2], "impl": t[3], "spec": t[4]} for t in neg_guard_bad[:8]],
-                  "theorem": "ImathVerif.C17.divp_negation_guard_defect", "replay_cmd": cx.replay_cmd("int %d %d" % (x, y))}, True)
+                  "theorem": "ImathVerif.C17.divp_modp_int32 / divp_former_defect_fixed", "replay_cmd": cx.replay_cmd("int %d %d" % (x, y))}, True)
 
 
 # ---------------------------------------------------------------------------
@@ -538,6 +520,11 @@ def root_cases(rng):
     return cases
 
 
+# accuracy bound (relative to max(1,|root|)) for polynomials with well-separated roots; the clean tree measures
+# <= 3e-15 (double) and <= 1.2e-6 (float); the cancellation defect repaired in 7563d4d measured 6e-11 / 2.3e-2
+RBOUND = {"d": 1e-12, "f": 2e-5}
+
+
 def cbrt(x):
     return math.copysign(abs(x) ** (1.0 / 3.0), x)
 
@@ -545,24 +532,13 @@ def cbrt(x):
 def check_roots(cx):
     chk = cx.chk
     cases = root_cases(chk.rng)
-    variant = cubic_variant()
-    chk.extra["cubic_real_branch_variant(from source text)"] = variant
-    chk.oblige("tie:ImathRoots.h:cube-root-argument-recognised", "translator", variant != "?", variant)
-    if variant == "?":
-        chk.fail("tie:cubic-variant", "tie:ImathRoots.h:real_root-argument",
-                 "the `T u = real_root (...)` line of solveNormalizedCubic has a form the hand model does not cover", {}, False)
     lines, meta = [], []
     for cmd, co, roots, cls in cases:
         for ty, h, cv in (("d", hd, float), ("f", hf, lambda v: tof(float(v)))):
             lines.append("%s %s %s" % (cmd, ty, " ".join(h(cv(float(c))) for c in co)))
             meta.append((cmd, ty, co, roots, cls))
-    rc1, a = run_lines(cx.binary, lines, "roots_impl")
-    mlines = [("rnS" + l[2:] if l.startswith("rn ") else "rcS" + l[2:] if l.startswith("rc ") else l) for l in lines] \
-        if variant == "stable" else lines
-    rc2, b = run_lines(DRV, mlines, "roots_model")
-    if rc1 != 0 or rc2 != 0 or len(a) != len(lines) or len(b) != len(lines):
-        chk.oblige("corr:roots:protocol", "correspondence", False)
-        chk.fail("corr:roots", "protocol:roots", "harness/driver did not answer every line (roots)", {"impl_rc": rc1, "model_rc": rc2}, False)
+    a, b = cx.both(lines, "roots")
+    if a is None:
         return
     corr_bad, spec_bad, defect = [], [], []
     resid = {"d": {"real": 0.0, "complex": 0.0}, "f": {"real": 0.0, "complex": 0.0}}
@@ -611,7 +587,7 @@ def check_roots(cx):
                 continue
             err = abs(vals[0] - true)
             resid[ty]["real"] = max(resid[ty]["real"], err / max(1, abs(true)))
-            if err > (1e-9 if ty == "d" else 2e-3) * max(1, abs(true)):
+            if err > RBOUND[ty] * max(1, abs(true)):
                 spec_bad.append((i, "root accuracy", err))
             continue
         if roots is None:
@@ -632,7 +608,7 @@ def check_roots(cx):
             spec_bad.append((i, "nan", None))
             continue
         scale = max([1.0] + [abs(float(r)) for r in roots])
-        bound = (1e-9 if ty == "d" else 2e-3) * scale
+        bound = RBOUND[ty] * scale
         if cls in ("cubic-double",):
             bound = (1e-5 if ty == "d" else 5e-2) * scale    # double root: error ~ sqrt(eps)
         got = sorted(vals)
@@ -650,9 +626,9 @@ def check_roots(cx):
     chk.extra["roots_multiple_root_count_differs(not claimed)"] = count_mismatch_double_roots
     for ty in ("d", "f"):
         chk.residues["roots:%s:max relative root error, real branches" % ("double" if ty == "d" else "float")] = {
-            "max": resid[ty]["real"], "bound": 1e-9 if ty == "d" else 2e-3}
+            "max": resid[ty]["real"], "bound": RBOUND[ty]}
         chk.residues["roots:%s:max relative root error, complex-branch cubic (MEASURED, not proved)" % ("double" if ty == "d" else "float")] = {
-            "max": resid[ty]["complex"], "bound": 1e-9 if ty == "d" else 2e-3}
+            "max": resid[ty]["complex"], "bound": RBOUND[ty]}
     for i, what in corr_bad[:3]:
         chk.fail("corr:roots", "model-vs-impl:" + lines[i].replace(" ", ","), "root solver: implementation differs from model (%s)" % what,
                  {"line": lines[i], "coefficients": [str(c) for c in meta[i][2]], "implementation": a[i], "model(count branch roots)": b[i],
@@ -679,7 +655,7 @@ def check_roots(cx):
                "model(count branch roots)": b[i], "true_root": "-1" if key.endswith("r=0,s=0,t=1") else "h - cbrt(k)",
                "failing_tuples": len(defect),
                "others": [{"line": lines[j], "coefficients": [str(c) for c in meta[j][2]]} for j, _ in defect[:10]],
-               "theorem": "ImathVerif.C17.cubic_real_branch_defect / cubic_real_full_statement_false",
+               "theorem": "ImathVerif.C17.solveNormalizedCubic_real / cubic_former_defect_fixed",
                "replay_cmd": cx.replay_cmd(lines[i])}
         cx.spec_fail.setdefault("roots", rep)
         chk.fail("spec:roots:cubic-real-branch", key,
@@ -691,13 +667,8 @@ def check_roots(cx):
 
 def check_colour(cx):
     chk, rng = cx.chk, cx.chk.rng
-    casts = wrapper_casts()
-    chk.extra["integer_wrapper_casts(from source text)"] = casts
-    okc = all(v in "fd" for v in casts.values())
-    chk.oblige("tie:ColorAlgo.h:wrapper-casts-recognised", "translator", okc, casts)
-    if not okc:
-        chk.fail("tie:wrapper-casts", "tie:ImathColorAlgo.h:wrapper-casts", "cannot recognise the scaling casts of the integer wrappers",
-                 {"found": casts}, False)
+    casts = wrapper_casts()     # informational only: the model divides by double (max) in all four wrappers
+    chk.extra["integer_wrapper_casts(source text, informational)"] = casts
     g = [0.0, 0.25, 0.5, 0.75, 1.0]
     rgb = [(x, y, z) for x in g for y in g for z in g] + [(rng.random(), rng.random(), rng.random()) for _ in range(400)]
     rgb += [(v, v, v) for v in (0.0, 0.3, 1.0)] + [(1.0, 0.2, 0.2000001), (0.2, 1.0, 0.2), (0.3, 0.3, 0.9), (0.9, 0.3, 0.3)]
@@ -793,9 +764,9 @@ def check_colour(cx):
         for (x, y, z) in pts:
             al = rng.choice([0, 1, mx // 2, mx - 1, mx, rng.randint(0, mx)])
             for fn in ("r2h", "h2r"):
-                ilines.append("i%s3 %s %s %d %d %d" % (fn, t, casts["rgb2hsv3" if fn == "r2h" else "hsv2rgb3"], x, y, z))
+                ilines.append("i%s3 %s %s %d %d %d" % (fn, t, "d", x, y, z))
                 imeta.append((t, fn, 3))
-                ilines.append("i%s4 %s %s %d %d %d %d" % (fn, t, casts["rgb2hsv4" if fn == "r2h" else "hsv2rgb4"], x, y, z, al))
+                ilines.append("i%s4 %s %s %d %d %d %d" % (fn, t, "d", x, y, z, al))
                 imeta.append((t, fn, 4))
     a, b = cx.both(ilines, "icolour")
     if a is None:
@@ -843,7 +814,7 @@ def check_colour(cx):
             line = "i%s4 %s x %d %d %d %d" % ("r2h" if fn == "rgb2hsv" else "h2r", t, mx // 3, mx // 2, mx // 5, al)
             rep = {"function": "%s(Color4<%s>)" % (fn, TYPES[t][0]), "alpha_in": al, "alpha_out": int(v[3]),
                    "alpha_values_changed": int(v[0]), "alpha_values_tested": int(v[1]), "cast_in_source": casts[fn + "4"],
-                   "theorem": "ImathVerif.C17.color4_int_alpha_defect (exact arithmetic, T = int); integer_wrappers_scale_by_max",
+                   "theorem": "ImathVerif.C17.integer_wrappers_scale_by_max / color4_int_alpha_fixed",
                    "replay_cmd": cx.replay_cmd(line)}
             cx.spec_fail.setdefault("colour", rep)
             chk.fail("spec:colour:alpha", "%s:Color4<%s>:alpha" % (fn, TYPES[t][0]),
@@ -936,8 +907,7 @@ def run(chk):
         "(real code in-process) vs lean/Driver/Fun.lean (models at Float32/Float/Int) on identical canonical lines",
         "integer-only specifications of floor/ceil/trunc/finitef/succf/predf inside the harness (all 2^32 floats), Python's "
         "math.floor/nextafter/Fraction for doubles, integers and roots",
-        "regex reading of the scaling cast (float|double)(numeric_limits<T>::max()) in the four integer colour wrappers",
-        "Lean's Float/Float32 compile to the same SSE2/libm operations as g++ -O1 -ffp-contract=off (used only to execute models)",
+                "Lean's Float/Float32 compile to the same SSE2/libm operations as g++ -O1 -ffp-contract=off (used only to execute models)",
         "g++, glibc nextafter/pow, the CPU"]
     chk.assumptions = [
         "IsTruncCast: the C++ cast int(y) is exact truncation toward zero for |y| < 2^31 (cvttss2si/cvttsd2si)",
